@@ -385,8 +385,11 @@ pub fn process_stratum(
     threads: usize,
     open: &[crate::framework::Finding],
     cov: &mut std::collections::BTreeMap<String, Value>,
+    xs: &mut crate::framework::ExtraStats,
 ) -> Vec<(Failure, Value)> {
     let cases = all_proc_cases();
+    xs.evaluations += cases.len() as u64;
+    xs.distinct_nontrivial += cases.len() as u64;
     let results: std::sync::Mutex<Vec<Option<String>>> = std::sync::Mutex::new(vec![None; cases.len()]);
     let next = std::sync::atomic::AtomicUsize::new(0);
     std::thread::scope(|sc| {
